@@ -105,6 +105,10 @@ func (c *stepCtx) runStep(k int, st map[string]interface{}) []string {
 		return c.stepDeep(st)
 	case "reject":
 		return c.stepReject(st)
+	case "legacy":
+		return []string{c.stepLegacy(st)}
+	case "allocs":
+		return []string{c.stepAllocs(st)}
 	case "gc":
 		runtime.GC()
 		return []string{`"ev":"GC"`}
